@@ -5,6 +5,7 @@ from ..astx import (calls_in, dotted, norm, src, iter_nodes, aliases_of, assigne
                     assigned_names, const_value, is_const, parent_chain)
 from ..lib import (call_arg, relation, truth, other, cmp_views, core, holds_region, conditions, found_test, found_tests, path_tests, entails_empty, paths_entail_empty, eval_conditions, relation_tests, atom_key, expand_condition, mode_mismatch_conditions, cfg_nodes_with_call, node_calls, returns, raises, raised_class, stmt_assigns_attr,
                    callee_last, guard_region, find_test_nodes, compare_parts, is_name, is_self_attr, node_roots)
+from ..lib import *      # noqa: F401,F403  (path-condition helpers)
 from ..linear import ctext, lin, Lin
 from ..loader import AnalysisError
 from ..effects import resolve_call
@@ -388,13 +389,21 @@ def check_wrappers(c, repo):
             okp = False
             wit = norm(k)
             if isinstance(a, ast.Name):
+                # every definition of the value handed to poll(): None exactly where timeout is None, else 1000 * timeout, made inside the retry loop
                 defs = [n for n in iter_nodes(f.node) if isinstance(n, ast.Assign) and a.id in assigned_names(n)]
-                if len(defs) == 1 and isinstance(defs[0].value, ast.IfExp):
-                    v = defs[0].value
-                    wit = norm(v)
-                    okp = norm(v.test) == '%s is None' % var and is_const(v.body, None) and lin(v.orelse, f, keep=(var,)) == Lin(0, {var: 1000})
-                    inl = any(p is loops[0] for p in parent_chain(defs[0]))
-                    okp = okp and inl
+                wit = str([norm(d) for d in defs])
+                okp = bool(defs)
+                kinds = set()
+                for d in defs:
+                    cs = conditions(g, g.node_of_stmt(d))
+                    inl = any(p is loops[0] for p in parent_chain(d))
+                    if is_const(d.value, None):
+                        kinds.add('none')
+                        okp = okp and inl and ('%s is None' % var, True) in cs
+                    else:
+                        kinds.add('ms')
+                        okp = okp and inl and lin(d.value, f, keep=(var,)) == Lin(0, {var: 1000}) and ('%s is None' % var, False) in cs
+                okp = okp and kinds == {'none', 'ms'}
             c.check(okp, f, k, 'poll is given the remaining timeout in milliseconds, recomputed in every retry (None = forever)',
                     witness=wit, kind='alg', tag='prim-timeout')
         if prim == 'poll':
@@ -511,9 +520,16 @@ def bounded_timeout_expr(f, a):
         if a.id in f.params:
             return True, 'parameter %s' % a.id
         defs = [n for n in iter_nodes(f.node) if isinstance(n, ast.Assign) and a.id in assigned_names(n)]
+
+        def none_on_request(d):
+            # `x = None` only where a parameter is None: the caller asked for an unbounded wait
+            if not (isinstance(d.value, ast.Constant) and d.value.value is None):
+                return False
+            nd = f.cfg.node_of_stmt(d)
+            return nd is not None and any(v and a_.endswith(' is None') and a_[:-8] in f.params for a_, v in conditions(f.cfg, nd))
         if defs and all(any(isinstance(x, ast.Name) and x.id in f.params for x in ast.walk(d.value)) or
                         isinstance(d.value, ast.Constant) and d.value.value is not None or
-                        (isinstance(d.value, ast.BinOp)) for d in defs):
+                        (isinstance(d.value, ast.BinOp)) or none_on_request(d) for d in defs):
             return True, 'local derived from a parameter'
         return False, 'local %s is not derived from the timeout parameter' % a.id
     if isinstance(a, ast.Attribute):
